@@ -226,6 +226,15 @@ func Assign(left, right value.Value) error {
 		default:
 			return errors.WithStack(fmt.Errorf("invalid assignment for BACKEND type, got %s", right.Type()))
 		}
+	case value.AclType:
+		lv := value.Unwrap[*value.Acl](left)
+		switch right.Type() {
+		case value.AclType: // ACL = ACL
+			rv := value.Unwrap[*value.Acl](right)
+			lv.Value = rv.Value
+		default:
+			return errors.WithStack(fmt.Errorf("invalid assignment for ACL type, got %s", right.Type()))
+		}
 	case value.BooleanType:
 		lv := value.Unwrap[*value.Boolean](left)
 		switch right.Type() {
